@@ -390,14 +390,19 @@ public:
             if (ps.names == 2) ps.names = 1;
             if (pa.names == 2) pa.names = 1;
         }
+        // a lenient socket made first from the same material and kept alive: 1 = an xcm_accept_a on the
+        // same server socket overriding tls.check_time=false, 2 = a connect-side socket configured like the
+        // judged client but with tls.check_time=false.  Policies are per socket: nothing of it may reach
+        // the judged pair, although the sockets share cached TLS contexts.
+        int pred = (int)cfg.ch(4);
         World &w = World::get();
         std::string dir = w.dir + "/c09-" + std::to_string(g_case % 8);
         mkdir(dir.c_str(), 0755);
         Eff ec = effective(pc), es_srv = effective(ps), ea = effective_accept(ps, pa);
         // ---- server socket
-        Ep srv, cli, acc;
-        srv.tag = 30; cli.tag = 2; acc.tag = 3;
-        struct Guard { Ep &a, &b, &c; ~Guard() { x_close(a); x_close(b); x_close(c); } } guard{cli, acc, srv};
+        Ep srv, cli, acc, pcli, pacc;
+        srv.tag = 30; cli.tag = 2; acc.tag = 3; pcli.tag = 4; pacc.tag = 5;
+        struct Guard { Ep &a, &b, &c, &d, &e; ~Guard() { x_close(a); x_close(b); x_close(d); x_close(e); x_close(c); } } guard{cli, acc, srv, pcli, pacc};
         std::string sdesc, cdesc, adesc;
         struct xcm_attr_map *sm = xcm_attr_map_create();
         xcm_attr_map_add_bool(sm, "xcm.blocking", false);
@@ -426,6 +431,43 @@ public:
         const char *la = call(srv, [&] { return xcm_local_addr(srv.s); });
         std::string l = la ? la : "";
         std::string caddr = std::string(tp == BTLS ? "btls" : tp == UTLS_TLS ? "utls" : "tls") + l.substr(l.find(':'));
+        // ---- the lenient predecessor
+        if (pred == 1 || pred == 2) {
+            Policy pp = pc;
+            if (pred == 2) pp.check_time = 0;
+            std::string pdesc;
+            struct xcm_attr_map *pm = xcm_attr_map_create();
+            xcm_attr_map_add_bool(pm, "xcm.blocking", false);
+            if (bs) xcm_attr_map_add_str(pm, "xcm.service", "bytestream");
+            add_attrs(pm, pp, ps.cred, true, dir, "cli", pdesc, nullptr);
+            pcli.s = call(pcli, [&] { return xcm_connect_a(caddr.c_str(), pm); });
+            xcm_attr_map_destroy(pm);
+            if (pcli.s) {
+                pcli.closed = false;
+                struct xcm_attr_map *pam = nullptr;
+                if (pred == 1) { pam = xcm_attr_map_create(); xcm_attr_map_add_bool(pam, "tls.check_time", false); }
+                int perr = EAGAIN;
+                for (int i = 0; i < 3000 && !pacc.s && perr == EAGAIN; i++) {
+                    sh_enter(pacc.tag, 1);
+                    errno = 0;
+                    pacc.s = xcm_accept_a(srv.s, pam);
+                    perr = errno;
+                    sh_leave();
+                    if (!pacc.s) { x_finish(pcli); usleep(300); }
+                }
+                if (pam) xcm_attr_map_destroy(pam);
+                if (!pacc.s && perr == EAGAIN) { c.cls("predecessor-not-accepted"); return Outcome::pass(); } // it would be taken for the judged client
+                if (pacc.s) pacc.closed = false;
+                for (int i = 0; i < 300; i++) {
+                    int r1 = x_finish(pcli), e1 = errno;
+                    int r2 = pacc.s ? x_finish(pacc) : 0, e2 = errno;
+                    if ((r1 == 0 || e1 != EAGAIN) && (r2 == 0 || e2 != EAGAIN)) break;
+                    usleep(200);
+                }
+                c.cls(pred == 1 ? "lenient-accept-from-the-same-server-alive" : "lenient-client-with-the-same-material-alive");
+                c.log("predecessor (%s) kept alive", pred == 1 ? "accepted from the same server socket with tls.check_time=false" : "client configured like the judged one but tls.check_time=false");
+            }
+        }
         // ---- client
         struct xcm_attr_map *cm = xcm_attr_map_create();
         xcm_attr_map_add_bool(cm, "xcm.blocking", false);
